@@ -248,7 +248,7 @@ func (si srcInfo) kind() string {
 	for _, u := range si.uses {
 		if strings.HasPrefix(u, "regex.") {
 			rx = append(rx, strings.TrimPrefix(u, "regex."))
-		} else if u != "strings.Contains" {
+		} else {
 			other = append(other, u)
 		}
 	}
@@ -258,17 +258,28 @@ func (si srcInfo) kind() string {
 	return "parser:" + strings.Join(append(other, rx...), "+")
 }
 
+// guards: the regexes a parser-based validator additionally matches.
+func (si srcInfo) guards() []string {
+	var rx []string
+	for _, u := range si.uses {
+		if strings.HasPrefix(u, "regex.") {
+			rx = append(rx, strings.TrimPrefix(u, "regex."))
+		}
+	}
+	return rx
+}
+
 // ---- Gen/Regexes.lean ----
 
-func genLean(repo, path string) error {
+func genLean(repo, dir string) error {
 	info, err := scanSources(repo)
 	if err != nil {
 		return err
 	}
-	w := newLeanWriter()
-	var body []string
-	var table []string
+	var table, imports, tail []string
 	for _, f := range formats {
+		w := newLeanWriter()
+		var body []string
 		si := info[f.name]
 		kind := si.kind()
 		pats, jsFormat, err := exportedPatterns(f)
@@ -284,20 +295,34 @@ func genLean(repo, path string) error {
 			}
 			patNodes = append(patNodes, n)
 		}
-		body = append(body, fmt.Sprintf("/-- %s: JSON Schema format=%q pattern=%s -/", f.name, jsFormat, leanComment(strings.Join(pats, "  AND  "))))
-		var patNames []string
+		def := func(name string, n *node) {
+			t := w.termTop(n, &body)
+			body = append(body, "end "+f.name, fmt.Sprintf("def %s : Re := %s", name, qualify(t, f.name)), "namespace "+f.name)
+		}
+		body = append(body, fmt.Sprintf("/- %s: JSON Schema format=%q pattern=%s -/", f.name, jsFormat, leanComment(strings.Join(pats, "  AND  "))))
+		var patNames, valNames []string
 		for i, n := range patNodes {
 			nm := fmt.Sprintf("pat_%s", f.name)
 			if i > 0 {
 				nm = fmt.Sprintf("pat_%s_%d", f.name, i+1)
 			}
-			t := w.termTop(n, &body)
-			body = append(body, fmt.Sprintf("def %s : Re := %s", nm, t))
+			def(nm, n)
 			patNames = append(patNames, nm)
 		}
-		valName := "[]"
-		if strings.HasPrefix(kind, "regex:") {
-			rn := strings.TrimPrefix(kind, "regex:")
+		// regex-validated: val_<fmt> lives with the pattern (certificates are about it).
+		// parser-validated: the regexes the validator additionally requires and the kind string go to
+		// Regexes.lean, so that a change of the validator alone does not invalidate the pattern's certificate.
+		regexKind := strings.HasPrefix(kind, "regex:")
+		var rxNames []string
+		if regexKind {
+			rxNames = append([]string{strings.TrimPrefix(kind, "regex:")}, f.extraRe...)
+			body = append(body, fmt.Sprintf("/- %s: validate.%s matches regex %v -/", f.name, si.validator, rxNames))
+		} else {
+			rxNames = si.guards()
+			tail = append(tail, fmt.Sprintf("/- %s: validate.%s is %s; regexes it also requires to match: %v -/", f.name, si.validator, kind, rxNames))
+		}
+		gw := newLeanWriter()
+		for i, rn := range rxNames {
 			re := regexByName(rn, f.delim)
 			if re == nil {
 				return fmt.Errorf("format %s: validator uses regex.%s which the harness does not know", f.name, rn)
@@ -306,41 +331,52 @@ func genLean(repo, path string) error {
 			if err != nil {
 				return err
 			}
-			body = append(body, fmt.Sprintf("/-- %s: validate.%s matches regex.%s = %s -/", f.name, si.validator, rn, leanComment(re.String())))
-			t := w.termTop(n, &body)
-			body = append(body, fmt.Sprintf("def val_%s : Re := %s", f.name, t))
-			valName = fmt.Sprintf("[val_%s", f.name)
-			for i, x := range f.extraRe {
-				xr := regexByName(x, f.delim)
-				if xr == nil {
-					return fmt.Errorf("format %s: unknown extra regex %s", f.name, x)
-				}
-				xn, err := parsePattern(xr.String())
-				if err != nil {
-					return err
-				}
-				xt := w.termTop(xn, &body)
-				body = append(body, fmt.Sprintf("def val_%s_%d : Re := %s", f.name, i+2, xt))
-				valName += fmt.Sprintf(", val_%s_%d", f.name, i+2)
+			nm := fmt.Sprintf("val_%s", f.name)
+			if i > 0 {
+				nm = fmt.Sprintf("val_%s_%d", f.name, i+1)
 			}
-			valName += "]"
-		} else {
-			body = append(body, fmt.Sprintf("/-- %s: validate.%s is %s -/", f.name, si.validator, kind))
+			if regexKind {
+				body = append(body, fmt.Sprintf("/- regex.%s = %s -/", rn, leanComment(re.String())))
+				def(nm, n)
+			} else {
+				ns := f.name + "_g"
+				var gb []string
+				t := gw.termTop(n, &gb)
+				tail = append(tail, "namespace "+ns)
+				tail = append(tail, gb...)
+				tail = append(tail, "end "+ns, fmt.Sprintf("/- regex.%s = %s -/", rn, leanComment(re.String())), fmt.Sprintf("def %s : Re := %s", nm, qualify(t, ns)))
+			}
+			valNames = append(valNames, nm)
 		}
-		body = append(body, fmt.Sprintf("def kind_%s : String := %q", f.name, kind))
-		table = append(table, fmt.Sprintf("  (%q, ⟨kind_%s, %s, [%s]⟩)", f.name, f.name, valName, strings.Join(patNames, ", ")))
+		tail = append(tail, fmt.Sprintf("def kind_%s : String := %q", f.name, kind))
+		table = append(table, fmt.Sprintf("  (%q, ⟨kind_%s, [%s], [%s]⟩)", f.name, f.name, strings.Join(valNames, ", "), strings.Join(patNames, ", ")))
+		var sb strings.Builder
+		sb.WriteString("/-\n  GENERATED by harness/cmd/c20 (translator) from the working tree of the library — do not edit.\n")
+		sb.WriteString("  val_<fmt>: the regex(es) the format's validator matches; pat_<fmt>: the pattern(s) the schema exports\n  to JSON Schema; kind_<fmt>: what the pkg/validate function does (go/ast scan).\n-/\n")
+		sb.WriteString("import Gozod.Model.Regex\nnamespace Gozod.Gen\nopen Gozod Gozod.Re\nnamespace " + f.name + "\n")
+		for _, l := range body {
+			sb.WriteString(l + "\n")
+		}
+		sb.WriteString("end " + f.name + "\nend Gozod.Gen\n")
+		if err := writeIfChanged(filepath.Join(dir, "Re_"+f.name+".lean"), sb.String()); err != nil {
+			return err
+		}
+		imports = append(imports, "import Gozod.Gen.Re_"+f.name)
 	}
 	var sb strings.Builder
-	sb.WriteString("/-\n  GENERATED by harness/cmd/c20 (translator) from the working tree of the library — do not edit.\n")
-	sb.WriteString("  val_<fmt>: the regex the format's validator matches (when it is regex-validated);\n  pat_<fmt>: the pattern the schema exports to JSON Schema; kind_<fmt>: what pkg/validate does.\n-/\n")
-	sb.WriteString("import Gozod.Model.Regex\nnamespace Gozod.Gen\nopen Gozod Gozod.Re\n\n")
-	for _, l := range body {
-		sb.WriteString(l + "\n")
-	}
+	sb.WriteString("/-\n  GENERATED by harness/cmd/c20 (translator) — do not edit.  The table of all C20 formats.\n-/\n")
+	sb.WriteString(strings.Join(imports, "\n") + "\nnamespace Gozod.Gen\nopen Gozod Gozod.Re\n\n" + strings.Join(tail, "\n") + "\n")
 	sb.WriteString("\nstructure Entry where\n  kind : String\n  vals : List Re\n  pats : List Re\n\n")
 	sb.WriteString("def table : List (String × Entry) := [\n" + strings.Join(table, ",\n") + "]\n\nend Gozod.Gen\n")
-	return writeIfChanged(path, sb.String())
+	return writeIfChanged(filepath.Join(dir, "Regexes.lean"), sb.String())
 }
+
+// qualify prefixes the shared-subterm names s<k> with the format's namespace.
+func qualify(t, ns string) string {
+	return sharedName.ReplaceAllString(t, ns+".$0")
+}
+
+var sharedName = regexp.MustCompile(`\bs[0-9]+\b`)
 
 // termTop emits pending shared definitions into body, then returns the term.
 func (w *leanWriter) termTop(n *node, body *[]string) string {
